@@ -11,6 +11,7 @@ forward value is sesquilinear in the same variable (there `z + star z = 2·Re z`
 The gate application model (`applyGate`, `applyControlled`) is the one of property C03.
 -/
 import NumqiProofs.Backward
+import NumqiProofs.BackwardDual
 import Mathlib.Data.Complex.Basic
 
 namespace Numqi.C04
@@ -129,6 +130,35 @@ theorem reverseSweep_vjp (K S : ℕ) (Θ δΘ : Params R) (gates : List (PGate n
     pairing K S out.2.2 δΘ + vdot out.2.1 δψ = pairing K S G0 δΘ + vdot gout (dforward Θ δΘ gates ψ0 δψ) :=
   sweep_vjp K S Θ δΘ gates hwf hun hr ψ0 δψ gout G0
 
+/-! ## the derivative is the genuine one: ε-coefficient over the dual numbers `R[ε]/(ε²)` -/
+
+/-- **`dforward` is the derivative of the whole circuit map**: run the *same* forward pass over the dual numbers at the
+perturbed point `(Θ + ε·δΘ, ψ + ε·δψ)` (constant gate arrays unperturbed); its ε⁰-coefficient is the forward value and its
+ε-coefficient is `dforward` — for every gate list, with shared slots entering as often as they are used. -/
+theorem dforward_is_dual_derivative (Θ δΘ : Params R) (gates : List (PGate n R)) (ψ δψ : Vec n R) (x : Bits n) :
+    (forward (dualParams Θ δΘ) (gates.map PGate.lift) (fun y => dualOf (ψ y) (δψ y)) x).fst = forward Θ gates ψ x ∧
+    (forward (dualParams Θ δΘ) (gates.map PGate.lift) (fun y => dualOf (ψ y) (δψ y)) x).snd
+      = dforward Θ δΘ gates ψ δψ x := by
+  have h := forward_dual Θ δΘ gates (fun y => dualOf (ψ y) (δψ y)) x
+  simpa only [fst_dualOf, snd_dualOf] using h
+
+/-- **The reverse sweep returns the gradient of the circuit map** — no product rule assumed: for every cotangent `g_out` and
+every perturbation family `(δΘ, δψ)`,
+`Σ_slots ⟪grad[slot], δΘ[slot]⟫ + ⟪q0_grad, δψ⟫ = ⟪g_out, D F[δΘ,δψ]⟫`, where `D F[δ]` is *defined* as the ε-coefficient of
+`F(Θ + ε δΘ, ψ + ε δψ)` computed in `R[ε]/(ε²)`. -/
+theorem reverseSweep_gradient (K S : ℕ) (Θ δΘ : Params R) (gates : List (PGate n R))
+    (hwf : ∀ g ∈ gates, g.WF) (hun : ∀ g ∈ gates, g.IsUnitary Θ) (hr : ∀ g ∈ gates, g.InRange K S)
+    (ψ0 δψ gout : Vec n R) (G0 : Params R) :
+    let out := backward Θ gates (conjVec (forward Θ gates ψ0), gout, G0)
+    pairing K S out.2.2 δΘ + vdot out.2.1 δψ
+      = pairing K S G0 δΘ
+        + vdot gout (fun x => (forward (dualParams Θ δΘ) (gates.map PGate.lift) (fun y => dualOf (ψ0 y) (δψ y)) x).snd) := by
+  intro out
+  have h := (sweep_vjp K S Θ δΘ gates hwf hun hr ψ0 δψ gout G0).2
+  have e : (fun x => (forward (dualParams Θ δΘ) (gates.map PGate.lift) (fun y => dualOf (ψ0 y) (δψ y)) x).snd)
+      = dforward Θ δΘ gates ψ0 δψ := funext fun x => (dforward_is_dual_derivative Θ δΘ gates ψ0 δψ x).2
+  rw [e]; exact h
+
 /-! ## Knill–Laflamme inner product (`qec/_internal.py:150-189`) -/
 
 /-- **The Knill–Laflamme backward is the adjoint of the (sesquilinear) forward map**: with
@@ -202,6 +232,19 @@ theorem sylvester_vjp (V G : ℕ → ℕ → F) (s : ℕ → F)
     · subst h; simp [Matrix.diagonal, hreal]
     · simp [Matrix.diagonal, h]
   exact sylvester_adjoint S X (toMat m G) δS hS (sylvStep_solves V G s hV1 hV2 hs)
+
+/-- **repeated square roots (`repeat` passes, induction on `repeat`)**: the output of `_torch_psd_sqrtm_backward_repeat` is the VJP
+of `repeat` successive squarings `S ↦ S² ↦ S⁴ ↦ …` (`dchain` is the chain of differentials `δ ↦ δ·S + S·δ`), provided no pass
+divides by zero (`SylvGuard`) and the roots are real; `sqrtm_chain_is_squaring` identifies the operators of the chain. -/
+theorem sqrtm_repeat_vjp (V : ℕ → ℕ → F) (hV1 : (toMat m V)ᴴ * toMat m V = 1) (hV2 : toMat m V * (toMat m V)ᴴ = 1)
+    (r : ℕ) (s : ℕ → F) (hreal : ∀ a, star (s a) = s a) (hg : SylvGuard m r s) (G : ℕ → ℕ → F)
+    (δ : Matrix (Fin m) (Fin m) F) :
+    Matrix.trace ((toMat m G)ᴴ * δ) = Matrix.trace ((toMat m (sylvBackward m V r s G))ᴴ * dchain m V r s δ) :=
+  sylvBackward_adjoint V hV1 hV2 r s hreal hg G δ
+
+omit [DecidableEq F] in
+theorem sqrtm_chain_is_squaring (V : ℕ → ℕ → F) (hV1 : (toMat m V)ᴴ * toMat m V = 1) (s : ℕ → F) :
+    specMat m V s * specMat m V s = specMat m V (fun a => s a * s a) := specMat_sq V hV1 s
 
 omit [StarRing F] in
 /-- repeated square roots: one more pass first solves with the stored roots, then continues with their squares -/
